@@ -132,10 +132,18 @@ fn run_d<F: PrimeField + FftField, D: Dom<F>>(op: &str, a: &[Arg]) -> Vec<Arg> {
         let c = d.get_coset(h);
         // new_coset is the same composition
         assert!(D::new_coset(num, h) == c, "harness: new_coset differs from new + get_coset");
-        match c {
+        let mut c = match c {
             Some(c) => c,
             None => return err(1),
+        };
+        // a chain of get_coset calls: new(n).get_coset(h1).get_coset(h2)...
+        for hv in a[4].iter().skip(1) {
+            c = match c.get_coset(fe(hv)) {
+                Some(c2) => c2,
+                None => return err(1),
+            };
         }
+        c
     };
     let data: Vec<F> = a.get(5).map(|v| v.iter().map(fe).collect()).unwrap_or_default();
     match op {
